@@ -1,0 +1,21 @@
+//go:build verif
+
+package server
+
+import "net"
+
+// VerifReadRawMessage runs messageReader.ReadRawMessage on conn and exposes the fields of the
+// (unexported) raw message: type byte and payload.
+func VerifReadRawMessage(conn net.Conn) (t byte, payload []byte, err error) {
+	m, err := NewMessageReader(conn).ReadRawMessage()
+	if err != nil {
+		return 0, nil, err
+	}
+	return m.t, m.payload, nil
+}
+
+// VerifParseRawMessage runs session.parseRawMessage: the dispatch on the type byte to the
+// fmessages parsers.
+func VerifParseRawMessage(t byte, payload []byte) (interface{}, error) {
+	return (&session{}).parseRawMessage(&rawMessage{t: t, payload: payload})
+}
